@@ -56,14 +56,15 @@ PGet == /\ ppc = "get"                                                     \* do
         /\ ppc' = "check" /\ toCheck' = SortedSeq(pool) /\ retired' = {}
         /\ UNCHANGED <<taskQ, ws, cnt, cur, pool, delivered>>
 AfterCheck == IF got # 0 /\ got \in Raises /\ ~Tolerate THEN "raise" ELSE IF got # 0 THEN "yield" ELSE "decide"
-PCheck == /\ ppc = "check" /\ toCheck # <<>>                               \* _check_children: one `.exitcode` read per entry
-          /\ LET w == Head(toCheck) IN
-             /\ toCheck' = Tail(toCheck)
-             /\ CASE ws[w] = "exit9" -> retired' = retired \cup {w} /\ pool' = pool /\ ws' = ws
-                  [] ws[w] = "exit0" -> pool' = pool \ {w} /\ retired' = retired /\ ws' = [ws EXCEPT ![w] = "gone"]
-                  [] OTHER -> UNCHANGED <<pool, retired, ws>>
-             /\ ppc' = IF Tail(toCheck) = <<>> THEN AfterCheck ELSE "check"
-          /\ UNCHANGED <<taskQ, doneQ, cnt, cur, delivered, got>>
+Without(q, w) == SelectSeq(q, LAMBDA x : x # w)
+PCheckW(w) == /\ ppc = "check" /\ w \in SeqSet(toCheck)                  \* _check_children: one `.exitcode` read per entry
+              /\ toCheck' = Without(toCheck, w)
+              /\ CASE ws[w] = "exit9" -> retired' = retired \cup {w} /\ pool' = pool /\ ws' = ws
+                   [] ws[w] = "exit0" -> pool' = pool \ {w} /\ retired' = retired /\ ws' = [ws EXCEPT ![w] = "gone"]
+                   [] OTHER -> UNCHANGED <<pool, retired, ws>>
+              /\ ppc' = IF Without(toCheck, w) = <<>> THEN AfterCheck ELSE "check"
+              /\ UNCHANGED <<taskQ, doneQ, cnt, cur, delivered, got>>
+PCheck == toCheck # <<>> /\ PCheckW(Head(toCheck))                        \* the code reads them in dict (= name) order
 PCheckNone == /\ ppc = "check" /\ toCheck = <<>>                           \* empty worker table: nothing to read
               /\ ppc' = AfterCheck
               /\ UNCHANGED <<taskQ, doneQ, ws, cnt, cur, pool, delivered, got, retired, toCheck>>
@@ -73,13 +74,15 @@ PRaise == /\ ppc = "raise"                                                 \* to
           /\ ws' = [w \in Workers |-> IF ws[w] \in {"idle", "busy", "leave0", "leave9"} THEN "killed" ELSE ws[w]]
           /\ ppc' = "raised"
           /\ UNCHANGED <<taskQ, doneQ, cnt, cur, pool, delivered, got, retired, toCheck>>
+CanBreak == pool = {} /\ (~Drain \/ doneQ = <<>>)
+PStartW(w) == /\ ppc = "decide" /\ ~CanBreak /\ w \in retired             \* mp.Process(name).start() for a retired name
+              /\ ws' = [ws EXCEPT ![w] = "idle"] /\ cnt' = [cnt EXCEPT ![w] = 0] /\ retired' = retired \ {w}
+              /\ UNCHANGED <<taskQ, doneQ, cur, pool, delivered, got, toCheck, ppc>>
 PDecide == /\ ppc = "decide"                                               \* `if not pool [and drained]: break`, else restart retired
-           /\ IF pool = {} /\ (~Drain \/ doneQ = <<>>) THEN ppc' = "done" /\ UNCHANGED <<ws, cnt, retired>>
-              ELSE IF retired = {} THEN ppc' = "get" /\ UNCHANGED <<ws, cnt, retired>>
-              ELSE LET w == CHOOSE x \in retired : \A y \in retired : x <= y IN      \* mp.Process(name).start(), name order
-                   /\ ws' = [ws EXCEPT ![w] = "idle"] /\ cnt' = [cnt EXCEPT ![w] = 0] /\ retired' = retired \ {w}
-                   /\ ppc' = ppc
-           /\ UNCHANGED <<taskQ, doneQ, cur, pool, delivered, got, toCheck>>
+           /\ \/ CanBreak /\ ppc' = "done" /\ UNCHANGED <<taskQ, doneQ, ws, cnt, cur, pool, delivered, got, retired, toCheck>>
+              \/ ~CanBreak /\ retired = {} /\ ppc' = "get"
+                           /\ UNCHANGED <<taskQ, doneQ, ws, cnt, cur, pool, delivered, got, retired, toCheck>>
+              \/ retired # {} /\ PStartW(CHOOSE x \in retired : \A y \in retired : x <= y)      \* name order
 Parent == PGet \/ PCheck \/ PCheckNone \/ PYield \/ PRaise \/ PDecide
 
 Next == Parent \/ \E w \in Workers : Worker(w)
